@@ -121,7 +121,7 @@ func c19Arg(r *vu.Rng, hostile bool) string {
 	}
 	switch r.Intn(14) {
 	case 9:
-		return "$zq_" + strconv.Itoa(r.Intn(9)) + `\a{` // an escape ends "after $": this '{' opens a block
+		return "zq_" + strconv.Itoa(r.Intn(9)) + `$\a{` // an escape ends "directly after $": this '{' opens a block
 	case 10:
 		return w + `"` + c19Pick(r, c19ArgWords) + `;` + c19Pick(r, c19ArgWords) + `"` // a quote inside a bare token is an ordinary character
 	case 11:
